@@ -16,22 +16,6 @@ open Mpc
 
 /-! ### XOR of bit lists -/
 
-theorem xorB_foldl (l : List Bool) : ∀ acc, l.foldl (fun a b => a != b) acc = (acc != l.foldl (fun a b => a != b) false) := by
-  induction l with
-  | nil => intro acc; simp
-  | cons b l ih =>
-    intro acc
-    simp only [List.foldl_cons]
-    rw [ih (acc != b), ih (false != b)]
-    cases acc <;> cases b <;> simp
-
-theorem xorB_nil : xorB [] = false := rfl
-
-theorem xorB_cons (a : Bool) (l : List Bool) : xorB (a :: l) = (a != xorB l) := by
-  simp only [xorB, List.foldl_cons]
-  rw [xorB_foldl]
-  cases a <;> simp
-
 theorem xorB_append (l1 l2 : List Bool) : xorB (l1 ++ l2) = (xorB l1 != xorB l2) := by
   induction l1 with
   | nil => simp [xorB_nil]
@@ -105,8 +89,8 @@ theorem xorB_flip0 {n : Nat} {ps : List Party} (h : Ids n ps) (hn : 0 < n) (f : 
   have : t.map (fun p => f p != (p.id == 0)) = t.map f := by
     apply List.map_congr_left
     intro q hq
-    have := ht q hq
-    simp [this]
+    have h1 : (q.id == 0) = false := beq_eq_false_iff_ne.mpr (ht q hq)
+    rw [h1]; cases f q <;> rfl
   rw [this]
   cases f p0 <;> cases xorB (t.map f) <;> rfl
 
@@ -189,5 +173,49 @@ theorem sim_rest {n N : Nat} {ps : List Party} {S : Store Bool} (g : Gate) (hid 
         cases xorB (ps.map fun p => p.wires.get g.in0) <;> cases xorB (ps.map fun p => p.wires.get g.in1) <;> rfl
       · exact xorB_flip0 hid hn (fun p => p.wires.get g.in0)
     · exact hrec x
+
+/-! ### Beaver AND: word algebra and bit packing -/
+
+theorem beaver_word (A B X Y : Word) :
+    (A &&& B) ^^^ ((X ^^^ A) &&& B) ^^^ ((Y ^^^ B) &&& A) ^^^ ((X ^^^ A) &&& (Y ^^^ B)) = X &&& Y := by
+  apply BitVec.eq_of_getLsbD_eq
+  intro i hi
+  simp only [BitVec.getLsbD_xor, BitVec.getLsbD_and]
+  cases A.getLsbD i <;> cases B.getLsbD i <;> cases X.getLsbD i <;> cases Y.getLsbD i <;> rfl
+
+theorem getLsbD_wordOfBits_aux (f : Nat → Bool) (o : Nat) : ∀ m, m ≤ 64 →
+    ((List.range m).foldl (fun (acc : Word) k => if f k then acc ||| (1#64 <<< k) else acc) 0#64).getLsbD o =
+      (decide (o < m) && f o) := by
+  intro m
+  induction m with
+  | zero => intro _; simp
+  | succ m ih =>
+    intro hm
+    rw [List.range_succ, List.foldl_append]
+    simp only [List.foldl_cons, List.foldl_nil]
+    split
+    · rename_i hf
+      rw [BitVec.getLsbD_or, ih (by omega), BitVec.getLsbD_shiftLeft]
+      by_cases hom : o = m
+      · subst hom; simp [hf]; omega
+      · by_cases hlt : o < m
+        · have : o < m + 1 := by omega
+          simp [hlt, this]
+        · have h2 : ¬ o < m + 1 := by omega
+          simp only [hlt, h2, decide_false, Bool.false_and, Bool.false_or]
+          have h1 : (1#64).getLsbD (o - m) = false := by
+            simp [BitVec.getLsbD_one]; omega
+          rw [h1]; simp
+    · rename_i hf
+      rw [ih (by omega)]
+      by_cases hom : o = m
+      · subst hom; simp [hf]
+      · have : (decide (o < m + 1)) = decide (o < m) := by
+          apply decide_eq_decide.mpr; omega
+        rw [this]
+
+theorem getLsbD_wordOfBits (f : Nat → Bool) (o : Nat) :
+    (wordOfBits f).getLsbD o = (decide (o < 64) && f o) :=
+  getLsbD_wordOfBits_aux f o 64 (Nat.le_refl _)
 
 end Mpc.Gmw
